@@ -70,6 +70,7 @@ int main() {
   int e = (int)vsim_param("entry", 0, NE - 1);
   int focus = (int)vsim_param_fixed("focus", 0);
   vsim_enable_fault(VF_CAS_WEAK, 0.005, 0.1);
+  vsim_enable_fault(VF_PLAIN_PREEMPT, 0.02, 0.6);   // plain shared data of the library (behind locks, in shared helper state) becomes preemptible
   vsim_enable_fault(VF_COND_SPURIOUS, 0.02, 0.2);
   vsim_set_budget(tier() ? 30000000 : 8000000);
   galois::SharedMemSys G;
